@@ -4,6 +4,7 @@ package daemon
 
 import (
 	"context"
+	"github.com/AliyunContainerService/terway/types"
 
 	zz "github.com/AliyunContainerService/terway/internal/zzverif"
 	"github.com/AliyunContainerService/terway/rpc"
@@ -116,6 +117,12 @@ func ZZ_C05_readd_new_sandbox() {
 func ZZ_C05_crash_cuts_del() {
 	svc, w, kc, st := zzService(daemon.ModeENIMultiIP)
 	kc.pod = zzPodInfo("p0")
+	// a pod with IP reservation keeps its allocation across a DEL under daemon-side IPAM
+	if zz.Bool("pod.reserves.ip") {
+		kc.pod.IPStickTime = 1
+	}
+	svc.ipamType = types.IPAMType(zz.OneOf("ipam", "default", "crd"))
+	keeps := svc.ipamType != types.IPAMTypeCRD && kc.pod.IPStickTime != 0
 	cid := "c1"
 	full := daemon.PodResources{PodInfo: kc.pod, ContainerID: &cid, Resources: zzLocalRes("eni-1", 5).ToStore()}
 	st.recs["ns/p0"] = full
@@ -127,7 +134,11 @@ func ZZ_C05_crash_cuts_del() {
 		db := zzDurable(initial, w.log, c)
 		rec, has := db["ns/p0"]
 		if c == len(w.log) && acked {
-			zz.Assert(!has, "an acknowledged DEL is durable: the record is gone from the database")
+			zz.Assert(has == keeps, "an acknowledged DEL is durable: the record is gone from the database (kept for a pod with IP reservation)")
+			// memory equals disk: the binding in the pool and the record go together -
+			// a released address whose record stays would be re-bound to the old pod
+			// by the next restart although it may have been handed to another pod
+			zz.Assert((zzCount(w, "release") > 0) == !has, "at quiescence after an acknowledged DEL the pool binding was released exactly when the record is gone")
 		}
 		if has {
 			zz.Assert(len(rec.Resources) == 1 && rec.ContainerID != nil && *rec.ContainerID == "c1", "until the record is deleted it stays complete (a restart restores the binding)")
